@@ -24,10 +24,22 @@ LEVEL_TEXT = ("Proof: placement <=> F_(k-1) <= r < F_k on non-decreasing weights
               "exactly N distinct positive-rate cells (and can not end with fewer positive-rate cells: D10), quantile = "
               "#{<=}/n in [0,1], seed 0 applied, result independent of the ambient generator state; all for every rate "
               "array / draw / stream (induction, Soft64 rounding lemmas), tied to the code by bit-exact weight comparison and "
-              "placement comparison on boundary-directed draws.")
-LEVEL_NOTE = ("numpy.random streams are inputs of the model (injected or fed); the test statistics (log-likelihood, Brier) "
-              "belong to C05/C16 and enter only through the quantile; numpy.searchsorted is modelled by its specification "
-              "on a non-decreasing array.")
+              "placement comparison on boundary-directed draws. Round 4: (i) numpy.searchsorted(side='right') is no longer taken by "
+              "its specification: the branch-free binary search numpy runs is modelled and proved to return #{w <= r} on every "
+              "non-decreasing array (bsearch_eq_searchRight), so every placement theorem holds for the algorithm; (ii) the random "
+              "stream is no longer an input: MT19937 seeded like numpy.random.seed(int), the 53-bit doubles of rand / uniform(0,1) "
+              "and numpy's multiplication-method Poisson sampler (mean < 10) are in the model; EVERY number the generator yields is "
+              "proved to be a float64 in [0, 1-2^-53], hence the seeded conditional Poisson test is proved total with the prescribed "
+              "count and no event in a zero-rate bin for EVERY seed (poisson_test_seeded_total), the seeded binary / Brier and L "
+              "tests satisfy their count clauses whenever they return, and a whole session of calls on the global generator is "
+              "deterministic from the first seeded call on (session_deterministic_after_seed). The seeded public tests are compared "
+              "with the model given NOTHING but rates, observed counts and the seed.")
+LEVEL_NOTE = ("Modelled: weights (Soft64), binary search, add.at, count assertion, rejection loop, quantile, seed handling, MT19937 + "
+              "random_sample + Poisson(mean<10, exp(-mean) supplied). Trusted: Soft64 = binary64 (validated every run), the model of "
+              "numpy's generator and binary search (validated bit for bit against numpy every run: c06_mt, c06_bsearch on unsorted "
+              "arrays; a disagreement is reported and the seed-only correspondence skipped, never a verdict), numpy's PTRS Poisson "
+              "sampler for means >= 10 (the draw stays an input), libm exp, the test statistics (C05/C16; they enter through the "
+              "quantile and through the harness-level reference statistic of the public-path oracle).")
 DESIGN_REF = "DESIGN.md §4 C06"
 TECHNIQUE = "Lean 4 model (Soft64 binary64 on Rat + exact lists) with kernel-checked theorems; differential correspondence + exact oracle"
 
@@ -44,12 +56,22 @@ THEOREMS = ["Sampler.place_iff", "Sampler.last_weight_is_one", "Sampler.weights_
             "Sampler.simulated_array_zero_in_zero_rate_bin", "Sampler.injected_test_total",
             "Sampler.poisson_test_prescribed_count", "Sampler.binary_sim_terminates_iff",
             "Sampler.binary_sim_exhausted_iff", "Sampler.hit_iff_draw_in_interval", "Sampler.testBinaryStream_spec",
-            "Sampler.binary_test_prescribed_count"]
+            "Sampler.binary_test_prescribed_count",
+            # round 4 deepening (Properties/C06_Search.lean, Properties/C06_Rng.lean)
+            "SamplerSearch.narrow_inv", "SamplerSearch.bsearch_eq_searchRight", "SamplerSearch.searchsortedRight_eq_placements",
+            "SamplerSearch.simulateBS_eq_simulate", "SamplerSearch.bsearch_place_iff",
+            "SamplerSearch.bsearch_never_zero_rate_in_range",
+            "SamplerRng.nextDouble_dyadic", "SamplerRng.uniform_unit_interval", "SamplerRng.uniform_is_float64",
+            "SamplerRng.rand_spec", "SamplerRng.rowsFrom_spec", "SamplerRng.poisson_test_seeded_total",
+            "SamplerRng.binary_test_seeded_spec", "SamplerRng.l_test_seeded_spec", "SamplerRng.seeded_call_ignores_ambient",
+            "SamplerRng.session_deterministic_after_seed"]
 TRUSTED = ["Lean 4.33 kernel", "axioms: propext, Classical.choice, Quot.sound at most",
            "Soft64.fl64 is IEEE-754 binary64 round-to-nearest-even and numpy + / cumsum on float64 are that arithmetic "
            "(validated bit-exactly on every generated rate vector)",
-           "numpy.searchsorted(side='right') on a non-decreasing array returns #{w <= r}; numpy.add.at adds 1 per index",
-           "numpy.random (MT19937 legacy state): the uniform/Poisson draws are inputs of the model",
+           "numpy.searchsorted(side='right') runs the branch-free binary search of Model/SamplerSearch.lean (identified and re-validated on "
+           "unsorted arrays every run); numpy.add.at adds 1 per index",
+           "numpy.random legacy global generator = MT19937 with init_genrand seeding and 53-bit doubles as in Model/SamplerRng.lean "
+           "(validated bit for bit every run); Poisson draws for means >= 10 (PTRS) and libm exp are inputs",
            "harness/c06.py generators, wrappers and comparison; driver parsing (Proto.lean)"]
 RULE = ("rate vectors of 1..40 bins (1-D and 2-D) with leading / trailing / interior zeros, values 10^U(-12,3), decimal "
         "and equal rates; draws = 0, the smallest subnormal, every cumulative boundary and its two neighbours, midpoints, "
@@ -61,7 +83,13 @@ RULE = ("rate vectors of 1..40 bins (1-D and 2-D) with leading / trailing / inte
         "statistics lie a few ulps .. 1e-5 relative above and below the observed one and on it; the quantile must be the "
         "exact fraction #{sim <= obs}/n of the RETURNED test_distribution; round 4: array-level rate / observed arrays in "
         "Fortran, transposed, sliced and reversed layouts and as int64, verbose runs of 100-125 simulations for every public "
-        "test, whole array-level tests compared with the model computing the prescribed number itself. A case is non-trivial when a draw "
+        "test, whole array-level tests compared with the model computing the prescribed number itself; round 4b: seeds as Python int / "
+        "numpy.int64 / uint32 / uint64, injected numbers in C / Fortran / strided layouts, num_simulations as numpy.int64, histories on "
+        "one forecast + catalog object incl. the catalog losing events in place before the checked call (prescribed number recomputed "
+        "from the case), every draw of the global generator logged (pass-through) so that the numbers are attributed to the simulations "
+        "whatever the order / batching / entry point (uniform, random, random_sample, rand ...), public-path oracle: every entry of "
+        "the returned distribution is the documented statistic of the inverse-CDF placement of its simulation's numbers (no private "
+        "hook needed), finite simulated log-likelihoods (no event in a zero-rate bin). A case is non-trivial when a draw "
         "sits on or next to a cumulative boundary, a zero-rate bin exists, or a simulated statistic lies within 1e-4 "
         "relative of the observed one; distinct by (kind, rates, draws)")
 
@@ -128,35 +156,131 @@ class Feeder:
         return vals.reshape(shape)
 
 
+UNIFORM_NAMES = ("uniform", "random", "random_sample", "ranf", "sample", "rand")
+
+
+def _adapt(name, core):
+    """`core(low, high, size)` behind the signature of numpy.random.<name>"""
+    if name == "uniform":
+        return lambda low=0.0, high=1.0, size=None: core(low, high, size)
+    if name == "rand":
+        return lambda *dims: core(0.0, 1.0, dims if dims else None)
+    return lambda size=None: core(0.0, 1.0, size)
+
+
+@contextlib.contextmanager
+def _patched_uniforms(core_of):
+    """replace every entry point of the legacy global generator that yields uniform numbers in [0,1) (uniform, random,
+    random_sample, ranf, sample, rand): a rewrite that draws its uniforms through another of them behaves the same"""
+    orig = {n: getattr(numpy.random, n) for n in UNIFORM_NAMES if hasattr(numpy.random, n)}
+    for n, f in orig.items():
+        setattr(numpy.random, n, _adapt(n, core_of(n, f)))
+    try:
+        yield
+    finally:
+        for n, f in orig.items():
+            setattr(numpy.random, n, f)
+
+
 @contextlib.contextmanager
 def feed_uniform(stream):
     f = Feeder(stream)
-    orig = numpy.random.uniform
-    numpy.random.uniform = f
-    try:
+    with _patched_uniforms(lambda name, orig: f):
         yield f
-    finally:
-        numpy.random.uniform = orig
+
+
+HELPER_MISSING = set()     # private helpers of the tree under test that are gone / re-shaped: direct cases skipped
+
+
+def _sig_ok(fn, mod):
+    """the private helper still takes (n, weights[, buffer], random_numbers=...)"""
+    import inspect
+    try:
+        names = list(inspect.signature(fn).parameters)
+    except (TypeError, ValueError):
+        return False
+    want = 3 if mod.__name__.endswith("brier_evaluations") else 4
+    return len(names) == want and names[-1] == "random_numbers"
+
+
+def private_fn(mod, name, params):
+    """the private array-level function `name` of the tree under test, or None (counted) when it is gone / takes other arguments"""
+    import inspect
+    fn = getattr(mod, name, None)
+    ok = callable(fn)
+    if ok:
+        try:
+            have = set(inspect.signature(fn).parameters)
+            ok = all(p in have for p in params)
+        except (TypeError, ValueError):
+            ok = False
+    if not ok:
+        HELPER_MISSING.add(mod.__name__.split(".")[-1] + "." + name)
+        return None
+    return fn
+
+
+DRAWLOG = []      # every draw of the legacy global generator made while a public test runs: ("u", size, values) / ("p", lam, size, values)
 
 
 @contextlib.contextmanager
 def capped_uniform(cap=300000):
-    """let numpy.random.uniform work as usual but stop a rejection loop that does not finish (a changed test may ask
-    for more active cells than exist: it would draw forever)"""
-    orig = numpy.random.uniform
+    """let numpy.random's uniform entry points (and numpy.random.poisson) work as usual - pass-through, the real global generator
+    answers - but (a) stop a rejection loop that does not finish (a changed test may ask for more active cells than exist: it
+    would draw forever) and (b) LOG what is drawn, in order, so that the oracle can attribute the numbers to the simulations
+    whatever the order / batching in which the test draws them"""
     state = dict(n=0)
+    del DRAWLOG[:]
 
-    def f(*a, **k):
-        state["n"] += 1
-        if state["n"] > cap:
-            raise StreamExhausted(f"more than {cap} uniform draws in one test: the rejection loop does not finish")
-        return orig(*a, **k)
+    def core_of(name, orig):
+        def core(low, high, size):
+            state["n"] += 1
+            if state["n"] > cap:
+                raise StreamExhausted(f"more than {cap} uniform draws in one test: the rejection loop does not finish")
+            if name == "uniform":
+                out = orig(low, high, size)
+            elif name == "rand":
+                out = orig(*(size or ()))
+            else:
+                out = orig(size)
+            if len(DRAWLOG) < 400000:
+                DRAWLOG.append(("u", size if name != "uniform" or (low == 0 and high == 1) else ("scaled", low, high, size),
+                                numpy.array(out, dtype=float).ravel().copy()))
+            return out
+        return core
 
-    numpy.random.uniform = f
+    orig_p = numpy.random.poisson
+
+    def poisson(lam=1.0, size=None):
+        out = orig_p(lam, size)
+        DRAWLOG.append(("p", lam, size, numpy.array(out).ravel().copy()))
+        return out
+
+    numpy.random.poisson = poisson
     try:
-        yield state
+        with _patched_uniforms(core_of):
+            yield state
     finally:
-        numpy.random.uniform = orig
+        numpy.random.poisson = orig_p
+
+
+def replay_log_from_seed(seed, log):
+    """None when the logged draws are exactly what the legacy generator yields after numpy.random.seed(seed) for the same
+    sequence of calls (any order, any batching); else a text"""
+    g = numpy.random.RandomState(seed)
+    for k, e in enumerate(log):
+        if e[0] == "p":
+            ref = numpy.array(g.poisson(e[1], e[2])).ravel()
+            got = e[3]
+        else:
+            if isinstance(e[1], tuple) and e[1] and e[1][0] == "scaled":
+                return None if k == 0 else None     # uniform(low, high) with other bounds: not interpreted
+            ref = numpy.array(g.random_sample(e[1])).ravel()
+            got = e[2]
+        if len(ref) != len(got) or any(bits(a) != bits(b) for a, b in zip(numpy.asarray(ref, dtype=float), numpy.asarray(got, dtype=float))):
+            return (f"draw {k} of the test ({'poisson' if e[0] == 'p' else 'uniform'}) is not what the generator seeded with {seed} "
+                    f"yields at that point")
+    return None
 
 
 def _mods():
@@ -167,22 +291,37 @@ def _mods():
 @contextlib.contextmanager
 def capture(mod):
     """record every call of mod._simulate_catalog: (n, weights, random_numbers|None, result|exception name)"""
-    rec = []
-    orig = mod._simulate_catalog
+    class Rec(list):
+        pass
+    rec = Rec()
+    rec.spans = []          # per recorded call: the slice of DRAWLOG drawn while the call ran
+    rec.missing = False
+    orig = getattr(mod, "_simulate_catalog", None)
+    if orig is None or not callable(orig) or not _sig_ok(orig, mod):
+        # the private helper this harness observes is gone or has another shape on the tree under test: nothing is
+        # recorded, the public-path oracles (statistics of the model's catalogs, quantile, determinism) decide alone
+        rec.missing = True
+        HELPER_MISSING.add(mod.__name__.split(".")[-1] + "._simulate_catalog")
+        yield rec
+        return
 
     def wrap(*a, **k):
         n, w = a[0], a[1]
         rn = k.get("random_numbers", a[3] if len(a) > 3 else None)
         if mod.__name__.endswith("brier_evaluations"):
             rn = k.get("random_numbers", a[2] if len(a) > 2 else None)
+        lo = len(DRAWLOG)
         try:
             out = orig(*a, **k)
         except StreamExhausted:
+            rec.partial_w = numpy.array(w, dtype=float)      # the weights of a simulation that ran out of fed numbers
             raise
         except Exception as e:
+            rec.spans.append((lo, len(DRAWLOG)))
             rec.append((int(n), numpy.array(w, dtype=float), None if rn is None else numpy.array(rn, dtype=float),
                         type(e).__name__))
             raise
+        rec.spans.append((lo, len(DRAWLOG)))
         rec.append((int(n), numpy.array(w, dtype=float), None if rn is None else numpy.array(rn, dtype=float),
                     numpy.array(out).copy()))
         return out
@@ -281,6 +420,10 @@ def oracle_call(rates, masked, call, expect_n, binary_loop=False):
         return "weights / result do not have the shape of the forecast"
     if any(W[i] > W[i + 1] for i in range(len(W) - 1)):
         return "sampling weights decrease"
+    ref = ref_weights(rates, masked)
+    if any(abs(float(a) - float(b)) > 1e-9 * max(abs(float(b)), 1e-300) + 1e-15 for a, b in zip(w, ref)):
+        return ("sampling weights are not the normalised cumulative rates of this forecast (beyond rounding): "
+                f"{[float(x) for x in w][:6]} vs {[float(x) for x in ref][:6]}")
     if n != expect_n:
         return f"simulated {n} events, prescribed {expect_n}"
     if sum(Fraction(float(v)) for v in out) != n:
@@ -407,12 +550,20 @@ def do_array(run, drv, pending, case):
     O = with_layout(numpy.array(obs, dtype=float if case.get("odtype", "float") == "float" else numpy.int64).reshape(shape),
                     case.get("olayout", "C"))
     run.count(f"array-layout-{case.get('layout', 'C')}-{case.get('rdtype', 'float64')}-obs-{case.get('odtype', 'float')}")
-    R = None if rows is None else numpy.array(rows, dtype=float).reshape(nsim, -1)
+    R = None if rows is None else rn_layout(numpy.array(rows, dtype=float).reshape(nsim, -1), case.get("rnlayout"))
+    if R is not None:
+        run.count(f"injected-numbers-layout-{case.get('rnlayout', 'C')}")
     fn = dict(poisson="_poisson_likelihood_test", binary="_binary_likelihood_test", brier="_brier_score_test")[module]
-    kw = dict(num_simulations=nsim, random_numbers=R, seed=None, verbose=False)
+    kw = dict(num_simulations=numpy.int64(nsim) if case.get("nsim_form") == "numpy.int64" else nsim, random_numbers=R, seed=None,
+              verbose=False)
     if module != "brier":
         kw.update(use_observed_counts=True, normalize_likelihood=bool(case.get("normalize", False)))
     exc, res, consumed = None, None, None
+    if private_fn(mod, fn, ["forecast_data", "observed_data", "num_simulations", "random_numbers", "seed", "verbose"] if module == "brier" else
+                  ["forecast_data", "observed_data", "num_simulations", "random_numbers", "seed", "verbose", "use_observed_counts",
+                   "normalize_likelihood"]) is None:
+        run.count(f"helper-missing:{module}.{fn}")
+        return
     with capture(mod) as rec:
         try:
             if rows is None:
@@ -427,24 +578,39 @@ def do_array(run, drv, pending, case):
             exc = "exhausted"
         except Exception as e:
             exc = type(e).__name__
+    hook_check(run, rec, len(rates), module)
     if exc == "exhausted":
         run.count("stream-exhausted")
     elif exc is not None:
         run.oracle_failure(case, f"{fn} raised {exc} on valid rates and draws in [0,1)")
     fail = None
+    if exc is None and res is not None:
+        # public-path oracle on the returned distribution (no private hook): statistic of the placement of the numbers
+        from types import SimpleNamespace
+        fail = public_stat_oracle(run, case, module, ("space" if case.get("normalize") else "cellmag") if module == "poisson" else "cellmag",
+                                  True, rates, numpy.array(obs, dtype=float), None, rows, None, nsim,
+                                  SimpleNamespace(test_distribution=res[2]), fed_stream=stream)
     for idx, call in enumerate(rec):
         fail = fail or oracle_call(rates, masked, call, expect_n, binary_loop=(masked and rows is None))
         if rows is not None and not isinstance(call[3], str):
             if call[2] is None or [bits(v) for v in call[2]] != [bits(v) for v in rows[idx]]:
                 fail = fail or "the injected random numbers of this simulation were not the ones used"
     if exc is None:
-        if len(rec) != nsim:
+        if len(rec) != nsim and not rec.missing:
             fail = fail or f"{len(rec)} catalogs simulated for {nsim} simulations"
         qs, ob, sims = res
         fail = fail or quantile_oracle(qs, ob, sims, nsim)
     if fail:
         run.oracle_failure(case, fail)
     # correspondence
+    if rec.missing:
+        run.count(f"helper-missing:{module}._simulate_catalog")
+        if exc is None and res is not None:
+            qs, ob, sims = res
+            if not (any(math.isnan(float(s)) for s in sims) or math.isnan(float(ob))):
+                i = drv.ask(f"c06_quantile {flist([fr_stat(s) for s in sims])} {frac(fr_stat(ob))}")
+                pending.append(("quantile", case, i, (float(qs), nsim)))
+        return
     if rec:
         w_impl = rec[0][1]
         run.extra["weights_compared"] = run.extra.get("weights_compared", 0) + 1
@@ -453,21 +619,65 @@ def do_array(run, drv, pending, case):
         for idx, call in enumerate(rec):
             i = drv.ask(f"c06_run {'m' if masked else 'p'} {flist(rates)} {flist(rows[idx])}")
             pending.append(("run", case, i, call))
+            ask_on_impl_weights(drv, pending, case, call)
         # the whole injected test: the prescribed number (sum(obs) / number of active cells) is computed by the model
         rowtxt = ";".join(flist(r) for r in rows) if rows else "-"
-        if rows and all(len(r) for r in rows):
+        if rows and all(len(r) for r in rows) and not weights_bitexact(rates, masked, rec):
+            run.count("whole-test-model-skipped:weights-not-bitexact")      # the per-call placement model on the own weights decides
+        elif rows and all(len(r) for r in rows):
             i = drv.ask(f"c06_test {'m' if masked else 'p'} {flist(rates)} {obstxt} {rowtxt}")
             pending.append(("test", case, i, (rec, exc)))
     else:
         # the whole stream: simulations consume it one after another; the number of active cells to reach is computed
         # by the model from the observed array
-        i = drv.ask(f"c06_bintest {flist(rates)} {obstxt} {nsim} {flist(stream)}")
-        pending.append(("chain", case, i, (rec, len(stream), consumed, exc)))
+        if not weights_bitexact(rates, masked, rec):
+            run.count("whole-test-model-skipped:weights-not-bitexact")
+            for idx, call in enumerate(rec):
+                if not isinstance(call[3], str) and idx == 0:
+                    # first simulation: the rejection loop of the model on the implementation's own weights
+                    i = drv.ask(f"c06_rej {flist(call[1])} {expect_n} {flist(stream)}")
+                    pending.append(("rej-seeded", case, i, [int(v) for v in call[3]]))
+        else:
+            i = drv.ask(f"c06_bintest {flist(rates)} {obstxt} {nsim} {flist(stream)}")
+            pending.append(("chain", case, i, (rec, len(stream), consumed, exc)))
     if exc is None and res is not None:
         qs, ob, sims = res
         if not (any(math.isnan(float(s)) for s in sims) or math.isnan(float(ob))):
             i = drv.ask(f"c06_quantile {flist([fr_stat(s) for s in sims])} {frac(fr_stat(ob))}")
             pending.append(("quantile", case, i, (float(qs), nsim)))
+
+
+def hook_check(run, rec, nbins, module):
+    """the recorded calls of the private sampler are interpreted only when they have the shape this harness knows (weights and
+    result over ALL bins of the forecast). A tree that calls its private helper with other arrays (e.g. over the support of
+    the forecast only) is judged through the public path alone - the call shape of a private helper is not part of the property."""
+    if rec.missing:
+        return
+    for c in rec:
+        if len(numpy.ravel(c[1])) != nbins or (not isinstance(c[3], str) and len(numpy.ravel(c[3])) != nbins):
+            rec.missing = True
+            del rec[:]
+            del rec.spans[:]
+            HELPER_MISSING.add(module + "_evaluations._simulate_catalog (called with arrays of another shape)")
+            run.count(f"helper-other-call-shape:{module}._simulate_catalog")
+            return
+
+
+def ask_on_impl_weights(drv, pending, case, call):
+    """the exact-layer model (`Sampler.simulate`: searchsorted right + add.at) on the weights the IMPLEMENTATION built: decides
+    when those weights are not bit-identical to the Soft64 weights (another, equally legitimate rounding of the cumulative rates)"""
+    n, w, rn, res = call
+    if rn is None or isinstance(res, str) or not all(math.isfinite(float(x)) for x in w):
+        return
+    j = drv.ask(f"c06_sim {flist(w)} {flist(rn)}")
+    pending[-1] = pending[-1] + (j,)
+
+
+def weights_bitexact(rates, masked, rec):
+    """the implementation's sampling weights are the reference float computation (cumsum, division by the last element)"""
+    ref = ref_weights(rates, masked)
+    ws = [r[1] for r in rec] + ([rec.partial_w] if getattr(rec, "partial_w", None) is not None else [])
+    return all(len(w) == len(ref) and all(bits(a) == bits(b) for a, b in zip(w, ref)) for w in ws)
 
 
 def parse_run(line):
@@ -485,18 +695,23 @@ def parse_rej(line):
     return t[0], None, None
 
 
-def _flush_item(run, out, kind, case, i, data):
+def _flush_item(run, out, kind, case, i, data, j=None):
     if kind == "run":
         n, w, rn, res = data
         W, P, A = parse_run(out[i])
-        if [Fraction(float(x)) for x in w] != W:
+        exact = [Fraction(float(x)) for x in w] == W
+        if not exact:
             run.count("weights-not-bitexact")
             run.extra["weights_not_bitexact"] = run.extra.get("weights_not_bitexact", 0) + 1
         else:
             run.count("weights-bitexact")
         impl = res if isinstance(res, str) else [int(v) for v in res]
         model = "IndexError" if A == "index-error" else A
-        if impl != model:
+        if not exact and j is not None:
+            # other rounding of the cumulative rates: the placement model on the implementation's own weights decides
+            model = "IndexError" if out[j] == "index-error" else ([] if out[j] == "-" else [int(x) for x in out[j].split(",")])
+            run.count("placement-model-on-implementation-weights")
+        if impl != model and (exact or j is not None):
             run.mismatch(case, dict(array=impl), dict(array=model, placements=P))
     elif kind == "chain":
         rec, nstream, consumed, exc = data
@@ -519,6 +734,37 @@ def _flush_item(run, out, kind, case, i, data):
             impl_arrs = [r[3] if isinstance(r[3], str) else [int(v) for v in r[3]] for r in rec]
             if impl_arrs != arrs:
                 run.mismatch(case, dict(simulated_catalogs=impl_arrs), dict(simulated_catalogs_from_seed_stream=arrs))
+    elif kind in ("seeded-model", "seeded-model-m"):
+        if out[i] == "not-finished":
+            run.count("seed-only-model-stream-too-short")
+        else:
+            model = out[i] if out[i] == "exception" else (
+                [] if out[i] == "-" else [[] if a == "-" else [int(x) for x in a.split(",")] for a in out[i].split(";")])
+            if data != model:
+                run.mismatch(case, dict(simulated_catalogs=data), dict(simulated_catalogs_from_seed_alone=model))
+    elif kind == "seeded-model-l":
+        impl, impl_n, ref_n = data
+        if out[i] == "exception":
+            run.count("seed-only-model-l-test-no-result")
+        else:
+            pairs = [] if out[i] == "-" else [a.split(":") for a in out[i].split(";")]
+            model_n = [int(a[0]) for a in pairs]
+            model = [[] if a[1] == "-" else [int(x) for x in a[1].split(",")] for a in pairs]
+            if model_n != ref_n:
+                run.count("seed-only-model-poisson-numbers-differ-from-numpy")   # trusted base (libm exp), no verdict
+            elif impl != model or impl_n != model_n:
+                run.mismatch(case, dict(events=impl_n, simulated_catalogs=impl),
+                             dict(events=model_n, simulated_catalogs_from_seed_alone=model))
+    elif kind == "bsearch":
+        if [int(v) for v in data] != ([] if out[i] == "-" else [int(x) for x in out[i].split(",")]):
+            run.count("bsearch-algorithm-differs-from-numpy")                    # trusted base, no verdict
+            run.extra["bsearch_algorithm_differs"] = run.extra.get("bsearch_algorithm_differs", 0) + 1
+        else:
+            run.count("bsearch-algorithm-agrees")
+    elif kind == "rej-seeded":
+        st, arr, rest = parse_rej(out[i])
+        if st != "done" or arr != data:
+            run.mismatch(case, dict(simulated_catalog=data), dict(status=st, rejection_loop_on_the_numbers_drawn=arr))
     elif kind == "test":
         rec, exc = data
         impl = "exception" if exc is not None else [[int(v) for v in r[3]] for r in rec]
@@ -550,9 +796,10 @@ def _flush_item(run, out, kind, case, i, data):
 def flush(run, drv, pending):
     out = drv.run()
     drv.lines.clear()
-    for kind, case, i, data in pending:
+    for item in pending:
+        kind, case, i, data = item[:4]
         try:
-            _flush_item(run, out, kind, case, i, data)
+            _flush_item(run, out, kind, case, i, data, *(item[4:5]))
         except (KeyboardInterrupt, SystemExit):
             raise
         except Exception as e:
@@ -629,6 +876,8 @@ def gen_array_case(rng, tier, module=None, want_d10=False):
     if injected:
         case["rows"] = [hx(gen_row(rng, cands, ev)) for _ in range(nsim)]
         case["stream"] = None
+        case["rnlayout"] = rng.choice(["C", "C", "F", "strided"])
+        case["nsim_form"] = rng.choice(["int", "int", "numpy.int64"])
     else:
         # a stream that lets the loop finish: boundary-directed numbers first, then the lower end of every
         # positive cell (guarantees termination when feasible), then random numbers
@@ -642,6 +891,106 @@ def gen_array_case(rng, tier, module=None, want_d10=False):
         case["rows"] = None
         case["stream"] = hx(stream)
     return case
+
+
+# ----------------------------------------------------------------------------- sessions on sibling forecasts
+def sibling_rates(rng, rates):
+    """another forecast on the same grid with the same dtype, first rate, last rate and (exactly) the same total: the interior
+    entries permuted / one interior bin's rate moved to another. Values are dyadic so that sums are exact in every order."""
+    n = len(rates)
+    if n < 4:
+        return None
+    inner = list(rates[1:-1])
+    for _ in range(20):
+        cand = list(inner)
+        if rng.random() < 0.5:
+            rng.shuffle(cand)
+        else:
+            i, j = rng.sample(range(len(cand)), 2)
+            if cand[i] > 0:
+                cand[j] += cand[i]
+                cand[i] = 0.0
+        if cand != inner:
+            return [rates[0]] + cand + [rates[-1]]
+    return None
+
+
+def gen_session_case(rng, tier):
+    module = rng.choice(["poisson", "binary", "brier"])
+    n = rng.choice([4, 5, 6, 8, 12])
+    vals = [0.0, 0.0, 0.125, 0.25, 0.5, 1.0, 2.0, 3.5]
+    rates = [rng.choice(vals[2:])] + [rng.choice(vals) for _ in range(n - 2)] + [rng.choice(vals[2:])]
+    if len(set(rates[1:-1])) < 2:
+        rates[1], rates[2] = 0.0, 2.0
+    forecasts = [rates]
+    for _ in range(rng.randint(1, 2)):
+        sib = sibling_rates(rng, forecasts[-1])
+        if sib:
+            forecasts.append(sib)
+    order = list(range(len(forecasts))) + [0]                   # A, B, (C,) A again
+    steps = []
+    for k in order:
+        r = forecasts[k]
+        masked = module != "poisson"
+        shape = [n, 1] if module == "brier" else ([n // 2, 2] if n % 2 == 0 and rng.random() < 0.4 else [n])
+        pos = [i for i, v in enumerate(r) if v > 0]
+        obs = [0] * n
+        if module == "poisson":
+            for _ in range(rng.choice([1, 2, 3, 5])):
+                obs[rng.randrange(n)] += 1
+            ev = sum(obs)
+        else:
+            for i in rng.sample(pos, rng.randint(1, max(1, min(len(pos), 3)))):
+                obs[i] = rng.randint(1, 2)
+            ev = n_active(obs)
+        nsim = rng.randint(1, 3)
+        w = ref_weights(r, masked)
+        cands = boundary_draws(w)
+        step = dict(kind="array", module=module, rates=hx(r), shape=shape, obs=obs, nsim=nsim, style="session", normalize=rng.random() < 0.5,
+                    odtype="float", rdtype="float64")
+        if module == "poisson" or rng.random() < 0.5:
+            step["rows"] = [hx(gen_row(rng, cands, ev)) for _ in range(nsim)]
+            step["stream"] = None
+        else:
+            stream = []
+            for _ in range(nsim):
+                lows = [0.0 if i == 0 else float(w[i - 1]) for i in drawable(r)]
+                rng.shuffle(lows)
+                stream += gen_row(rng, cands, rng.randint(0, 3)) + lows
+            step["rows"] = None
+            step["stream"] = hx(stream)
+        steps.append(step)
+    return dict(kind="session", module=module, steps=steps)
+
+
+def do_session(run, drv, pending, case):
+    """several evaluations in ONE process on DIFFERENT forecasts that share grid, dtype, total, first and last rate: every call is
+    judged like a first call (exact oracle on its own rates, whole-test model, public-path oracle) - state kept between
+    evaluations of different forecasts shows as a deviation of a later step; the whole session is the replay"""
+    run.count("session-sibling-forecasts")
+    for k, step in enumerate(case["steps"]):
+        proxy = _SessionRun(run, case, k)
+        do_array(proxy, drv, pending, step)
+        flush(proxy, drv, pending)
+
+
+class _SessionRun:
+    """forwards to the real run object, but reports failures with the WHOLE session as the replay case"""
+
+    def __init__(self, run, session, k):
+        self._run, self._session, self._k = run, session, k
+
+    def __getattr__(self, name):
+        return getattr(self._run, name)
+
+    def case(self, case, key=None):
+        return self._run.case(dict(self._session, at_step=self._k), None if key is None else ("session", self._k) + tuple(key))
+
+    def oracle_failure(self, case, detail, signature=None):
+        return self._run.oracle_failure(self._session, f"session step {self._k}: {detail}", signature=signature)
+
+    def mismatch(self, case, impl, model, oracle_ok=True):
+        return self._run.mismatch(dict(self._session, at_step=self._k), impl, model, oracle_ok)
 
 
 # ----------------------------------------------------------------------------- public tests
@@ -686,6 +1035,39 @@ def public_inputs(case, fore, cat):
     return numpy.asarray(F, dtype=float).ravel(), numpy.asarray(O, dtype=float).ravel()
 
 
+def seed_arg(case):
+    """the seed in the argument form of the case: Python int, numpy.int64, numpy.uint32, 0-d array (all accepted by
+    numpy.random.seed and equal to the same integer)"""
+    sd, form = case.get("seed"), case.get("seed_form", "int")
+    if sd is None or form == "int":
+        return sd
+    if form == "numpy.int64":
+        return numpy.int64(sd)
+    if form == "numpy.uint32":
+        return numpy.uint32(sd)
+    if form == "numpy.uint64":
+        return numpy.uint64(sd)
+    return sd
+
+
+def pick_seed_form(rng):
+    return rng.choice(["int", "int", "numpy.int64", "numpy.uint32", "numpy.uint64"])
+
+
+def rn_layout(R, layout):
+    """the injected numbers, element by element the same, in another memory layout (row idx is still R[idx, :])"""
+    if R is None or layout in (None, "C") or R.ndim != 2:
+        return R
+    if layout == "F":
+        out = numpy.asfortranarray(R.copy())
+    else:
+        big = numpy.full((R.shape[0], 2 * R.shape[1] + 1), 0.5)
+        big[:, 1::2] = R
+        out = big[:, 1::2]
+    assert out.shape == R.shape and numpy.array_equal(out, R)
+    return out
+
+
 def result_key(res):
     q = res.quantile
     td = [bits(v) for v in res.test_distribution]
@@ -700,10 +1082,26 @@ def do_public(run, drv, pending, case):
     fore, cat = build_public(case)
     # history on the SAME forecast / catalog objects before the checked call: other tests (their results are not looked at
     # here), scale() calls; the checked call must behave like a first call on objects in the state they are in now
+    events_now = [tuple(e) for e in case["events"]]
     for h in case.get("history") or []:
         try:
             if h[0] == "scale":
                 fore.scale(h[1])
+            elif h[0] == "sibling":
+                # ANOTHER forecast on the same region (same total, first and last rate; interior rates reversed) is evaluated first
+                from csep.core.forecasts import GriddedForecast
+                d = numpy.array(fore.data, dtype=float).copy()
+                flat = d.ravel()
+                if flat.size >= 4:
+                    flat[1:-1] = flat[1:-1][::-1].copy()
+                sib = GriddedForecast(data=flat.reshape(d.shape), region=fore.region, magnitudes=fore.magnitudes, name="sibling")
+                hm = mods[PUBLIC[h[1]][0]]
+                with capped_uniform(), contextlib.redirect_stdout(io.StringIO()):
+                    getattr(hm, h[1])(sib, cat, num_simulations=h[3], seed=h[2])
+            elif h[0] == "drop":
+                # the catalog object loses its last events (public API, in place): later calls see the catalog as it is NOW
+                cat.filter(f"origin_time < {1000 * h[1]}", in_place=True)
+                events_now = events_now[:h[1]]
             else:
                 hm = mods[PUBLIC[h[1]][0]]
                 with capped_uniform(), contextlib.redirect_stdout(io.StringIO()):
@@ -719,6 +1117,16 @@ def do_public(run, drv, pending, case):
     rows = None if case.get("rows") is None else [unhx(r) for r in case["rows"]]
     seed = case.get("seed")
     expect_n = int(sum(Or)) if module == "poisson" else n_active(Or)
+    # the prescribed number from the CASE (every generated event lies inside the region and the magnitude range), not from
+    # the gridded counts the library hands to the test
+    if module == "poisson":
+        expect_case = len(events_now)
+    else:
+        expect_case = len({(e if view == "cellmag" else e[0]) for e in events_now})
+    if expect_case != expect_n:
+        run.oracle_failure(case, f"the observed counts handed to the test hold {expect_n} events / active cells, the catalog "
+                                 f"holds {expect_case} now")
+        return None
     w_ref = ref_weights(rates, masked)
     nontriv = (case["test"], tuple(case["rates"]), json.dumps(case.get("rows")), seed) if (
         any(v <= 0 for v in rates) or (rows and is_boundary_case(w_ref, rows)) or case.get("neartie")) else None
@@ -727,7 +1135,9 @@ def do_public(run, drv, pending, case):
     if masked and infeasible(run, case, rates, expect_n):
         if rows is None:
             return
-    R = None if rows is None else numpy.array(rows, dtype=float).reshape(nsim, -1)
+    R = None if rows is None else rn_layout(numpy.array(rows, dtype=float).reshape(nsim, -1), case.get("rnlayout"))
+    if case.get("seed_form", "int") != "int":
+        run.count(f"seed-argument-form-{case['seed_form']}")
     fn = getattr(mod, case["test"])
     exc, res = None, None
     if seed is None and rows is None:
@@ -739,17 +1149,21 @@ def do_public(run, drv, pending, case):
         try:
             numpy.random.seed(case.get("ambient", 12345))
             with capped_uniform(), contextlib.redirect_stdout(io.StringIO()):
-                res = fn(fore, cat, num_simulations=nsim, seed=seed, random_numbers=R, **kw)
+                res = fn(fore, cat, num_simulations=nsim, seed=seed_arg(case), random_numbers=R, **kw)
         except StreamExhausted as e:
             exc = "rejection loop did not finish: " + str(e)
         except Exception as e:
             exc = type(e).__name__
+    hook_check(run, rec, len(rates), module)
     if exc is not None:
         run.oracle_failure(case, f"{case['test']} raised {exc}")
         return None
     fail = None
-    if len(rec) != nsim:
+    if rec.missing:
+        run.count(f"helper-missing:{module}._simulate_catalog")
+    elif len(rec) != nsim:
         fail = f"{len(rec)} catalogs simulated for {nsim} simulations"
+    fail = fail or public_stat_oracle(run, case, module, view, conditional, rates, Or, fore, rows, seed, nsim, res)
     for idx, call in enumerate(rec):
         exp = expect_n
         if not conditional:
@@ -767,11 +1181,12 @@ def do_public(run, drv, pending, case):
         for idx, call in enumerate(rec):
             i = drv.ask(f"c06_run {'m' if masked else 'p'} {flist(rates)} {flist(rows[idx])}")
             pending.append(("run", case, i, call))
+            ask_on_impl_weights(drv, pending, case, call)
     else:
         for call in (rec[:1] if case.get("neartie") else rec):   # weights only (bit-exactness) + zero draws
             i = drv.ask(f"c06_run {'m' if masked else 'p'} {flist(rates)} -")
             pending.append(("weights", case, i, call))
-        if seed is not None and not case.get("neartie"):
+        if seed is not None and not case.get("neartie") and not rec.missing:
             default_path(run, drv, pending, case, mod, module, masked, conditional, rates, Or, fore, seed, nsim, rec, res)
     sims, ob = res.test_distribution, res.observed_statistic
     if not (any(math.isnan(float(s)) for s in sims) or math.isnan(float(ob))):
@@ -780,31 +1195,214 @@ def do_public(run, drv, pending, case):
     return res
 
 
+def ref_stat(module, view, conditional, rates, Or, arr):
+    """the statistic of a simulated count array `arr` as the public test documents it (harness-level reference, float64)"""
+    r = numpy.asarray(rates, dtype=float)
+    a = numpy.asarray(arr, dtype=float)
+    if module == "poisson":
+        n_obs, n_fore = float(numpy.sum(Or)), float(numpy.sum(r))
+        normalize = view in ("space", "mag")
+        if conditional and normalize:
+            with numpy.errstate(all="ignore"):
+                logr = numpy.log(r * (n_obs / n_fore))
+            expected = float(int(n_obs))
+        else:
+            with numpy.errstate(all="ignore"):
+                logr = numpy.log(r)
+            expected = n_fore
+        idx = a > 0
+        return float(numpy.sum(logr[idx] * a[idx]) - sum(math.lgamma(v + 1.0) for v in a[idx]) - expected)
+    y = (a > 0).astype(float)
+    if module == "binary":
+        if not numpy.all(r > 0):
+            return None
+        return float(numpy.sum(y * numpy.log(1.0 - numpy.exp(-r)) + (1 - y) * (-r)))
+    prob = 1.0 - numpy.exp(-numpy.where(r > 0, r, 0.0))
+    return float(-2.0 * numpy.sum(numpy.square(prob - y)) / len(r))
+
+
+def ref_simulate(rates, masked, row, loop_target=None):
+    """inverse-CDF placement of `row` on the reference weights (exact comparison of doubles); None when a number lies within
+    4 ulps of a cumulative boundary (a legitimate other rounding of the weights may place it on either side). With
+    `loop_target` the numbers feed the rejection loop: returns (array, numbers used)"""
+    import bisect
+    w = [float(x) for x in ref_weights(rates, masked)]
+    arr = [0] * len(w)
+    used = 0
+    for r in row:
+        if loop_target is not None and sum(arr) >= loop_target:
+            break
+        used += 1
+        r = float(r)
+        k = bisect.bisect_right(w, r)
+        if k >= len(w):
+            return None
+        for b in (w[k - 1] if k else None, w[k]):
+            if b is not None and abs(r - b) <= 4 * numpy.spacing(max(abs(b), 1e-300)):
+                return None
+        if loop_target is None:
+            arr[k] += 1
+        elif arr[k] == 0:
+            arr[k] = 1
+    if loop_target is not None:
+        return (arr, used) if sum(arr) >= loop_target else None
+    return arr
+
+
+def public_stat_oracle(run, case, module, view, conditional, rates, Or, fore, rows, seed, nsim, res, fed_stream=None):
+    """PUBLIC PATH, no private hook: entry idx of the returned test distribution is the documented statistic of the catalog
+    that the inverse-CDF placement of the simulation's random numbers gives - the injected rows, or (seeded, plain drawing
+    pattern) the numbers the test drew from the global generator, attributed by their order. Returns None or a text."""
+    dist = [float(v) for v in res.test_distribution]
+    masked = module != "poisson"
+    # never in a zero-rate bin, seen from outside: the log-likelihood of a simulated catalog is finite (an event in a bin of
+    # rate 0 makes it -inf / nan) - theorem `sim_entries_finite` of C05 + `never_in_zero_rate_bin`
+    if module == "poisson" and all(v >= 0 for v in rates) and any(v > 0 for v in rates):
+        bad = [k for k, v in enumerate(dist) if math.isnan(v) or math.isinf(v)]
+        if bad and (rows is not None or seed is not None):
+            return (f"entry {bad[0]} of the simulated distribution is {dist[bad[0]]!r}: a simulated catalog has an event in a "
+                    f"zero-rate bin (or outside every bin)")
+    sims = []
+    if rows is not None:
+        if not conditional and len(rows) != nsim:
+            return None
+        for row in rows:
+            sims.append(ref_simulate(rates, masked, row))
+    elif seed is not None:
+        log = list(DRAWLOG)
+        if not masked:
+            us = [e for e in log if e[0] == "u"]
+            ps = [int(v) for e in log if e[0] == "p" for v in e[3]]
+            if len(us) != nsim or (not conditional and len(ps) < nsim):
+                run.count("public-path-oracle:draws-not-attributable")
+                return None
+            for idx, e in enumerate(us):
+                n = int(sum(Or)) if conditional else ps[idx]
+                if len(e[2]) != n:
+                    run.count("public-path-oracle:draws-not-attributable")
+                    return None
+                sims.append(ref_simulate(rates, masked, e[2]))
+        else:
+            if any(e[0] != "u" for e in log):
+                return None
+            stream = [float(v) for e in log for v in e[2]]
+            target, pos = n_active(Or), 0
+            for _ in range(nsim):
+                got = ref_simulate(rates, True, stream[pos:], loop_target=target) if target else ([0] * len(rates), 0)
+                if got is None:
+                    run.count("public-path-oracle:draws-not-attributable")
+                    return None
+                sims.append(got[0])
+                pos += got[1]
+    elif fed_stream is not None and masked:
+        target, pos = n_active(Or), 0
+        for _ in range(nsim):
+            got = ref_simulate(rates, True, fed_stream[pos:], loop_target=target) if target else ([0] * len(rates), 0)
+            if got is None:
+                run.count("public-path-oracle:draws-not-attributable")
+                return None
+            sims.append(got[0])
+            pos += got[1]
+    else:
+        return None
+    if len(dist) != len(sims):
+        return None          # the number of entries is judged by the quantile oracle
+    for idx, (arr, val) in enumerate(zip(sims, dist)):
+        if arr is None:
+            run.count("public-path-oracle:near-boundary-skipped")
+            continue
+        ref = ref_stat(module, view, conditional, rates, Or, arr)
+        if ref is None or math.isnan(ref) or math.isnan(val):
+            continue
+        run.count("public-path-oracle:entry-checked")
+        if not (val == ref or abs(val - ref) <= 1e-9 * max(abs(val), abs(ref)) + 1e-12):
+            return (f"entry {idx} of the test distribution is {val!r}; the statistic of the catalog that the inverse-CDF placement "
+                    f"of this simulation's random numbers gives is {ref!r}")
+    return None
+
+
 def default_path(run, drv, pending, case, mod, module, masked, conditional, rates, Or, fore, seed, nsim, rec, res):
     """no injected numbers: the simulated catalogs must be the model's placement of the numbers the legacy global generator
     yields after numpy.random.seed(seed) — Poisson tests: [poisson(N_fore) for the L-test, then] rand(n) per simulation; binary
     / Brier: one uniform per iteration of the rejection loop (drawing them in batches yields the same numbers). And every
     entry of the returned distribution must be the statistic of ITS simulated catalog (a reused buffer must not alias)."""
-    g = numpy.random.RandomState(seed)
     run.count(f"default-path-{module}")
+    log = list(DRAWLOG)
+    spans = list(getattr(rec, "spans", []))
+    # (a) whatever the order / batching: the numbers the test drew are the stream of the generator seeded with `seed`
+    why = replay_log_from_seed(seed, log)
+    if why:
+        run.oracle_failure(case, f"default random path: {why} (the seed does not determine the random numbers of the test)")
+        return
+    # (b) the numbers drawn while simulation idx ran belong to that simulation
+    inside = [numpy.concatenate([log[k][2] for k in range(lo, hi) if log[k][0] == "u"] or [numpy.zeros(0)]) for lo, hi in spans]
+    covered = sum(hi - lo for lo, hi in spans)
+    n_unif_entries = sum(1 for e in log if e[0] == "u")
+    all_inside = covered >= n_unif_entries and len(spans) == len(rec)
+    pois = [e for e in log if e[0] == "p"]
     if not masked:
+        lam = float(numpy.sum(fore.data))
+        if not conditional:
+            # L-test: every catalog has the number of events of a Poisson draw with the forecast mean, in drawing order
+            drawn = [int(v) for e in pois for v in e[3]]
+            if any(not (abs(float(e[1]) - lam) <= 1e-12 * max(1.0, abs(lam))) for e in pois):
+                run.oracle_failure(case, f"L-test: Poisson numbers drawn with mean {[float(e[1]) for e in pois][:3]}, the forecast mean is {lam!r}")
+                return
+            if [c[0] for c in rec] != drawn[:len(rec)]:
+                run.oracle_failure(case, f"L-test: simulated catalogs have {[c[0] for c in rec][:6]} events, the Poisson numbers drawn "
+                                         f"with the forecast mean were {drawn[:6]}")
+                return
+        plain = all_inside and weights_bitexact(rates, masked, rec)
         for idx, call in enumerate(rec):
-            n = int(sum(Or)) if conditional else int(g.poisson(float(numpy.sum(fore.data))))
-            row = g.random_sample(n)
             if isinstance(call[3], str):
                 continue
+            n = call[0]
+            row = call[2] if call[2] is not None else (inside[idx] if idx < len(inside) else numpy.zeros(0))
+            if len(row) != n:
+                run.count("default-path-draws-not-attributable")
+                plain = False
+                continue
             call2 = (call[0], call[1], numpy.array(row, dtype=float), call[3])
-            fail = oracle_call(rates, masked, call2, n)
+            fail = oracle_call(rates, masked, call2, n if not conditional else int(sum(Or)))
             if fail:
                 run.oracle_failure(case, f"default random path, simulation {idx}: {fail}")
                 return
             i = drv.ask(f"c06_run p {flist(rates)} {flist(row)}")
             pending.append(("run", case, i, call2))
+            ask_on_impl_weights(drv, pending, case, call2)
+        # (c) the seed-only model (Model/SamplerRng.lean) draws [poisson,] rand(n) per simulation: compared when the test draws so
+        pattern = []
+        for e in log:
+            pattern.append("p" if e[0] == "p" and e[2] is None else ("P" if e[0] == "p" else "u"))
+        want = "".join(("" if conditional else "p") + "u" for _ in range(nsim))
+        if plain and "".join(pattern) == want:
+            seeded_model(run, drv, pending, case, module, masked, conditional, rates, Or, fore, seed, nsim, rec)
+        else:
+            run.count("seed-only-model-skipped-other-draw-order")
     else:
-        stream = g.random_sample(4000).tolist()
-        obstxt = ",".join(str(int(v)) for v in Or) if len(Or) else "-"
-        i = drv.ask(f"c06_bintest {flist(rates)} {obstxt} {nsim} {flist(stream)}")
-        pending.append(("chain-seeded", case, i, rec))
+        expect_n = n_active(Or)
+        plain = all_inside and all(e[0] == "u" for e in log) and weights_bitexact(rates, masked, rec)
+        for idx, call in enumerate(rec):
+            if isinstance(call[3], str) or idx >= len(inside):
+                continue
+            if not plain:
+                continue
+            if len(inside[idx]) == 0 and expect_n > 0:
+                run.count("default-path-draws-not-attributable")
+                plain = False
+                continue
+            # the rejection loop on the numbers drawn while this simulation ran (one by one or in batches; unused ones stay)
+            i = drv.ask(f"c06_rejm {flist(rates)} {expect_n} {flist(inside[idx])}")
+            pending.append(("rej-seeded", case, i, [int(v) for v in call[3]]))
+        if plain:
+            g = numpy.random.RandomState(seed)
+            stream = g.random_sample(4000).tolist()
+            obstxt = ",".join(str(int(v)) for v in Or) if len(Or) else "-"
+            i = drv.ask(f"c06_bintest {flist(rates)} {obstxt} {nsim} {flist(stream)}")
+            pending.append(("chain-seeded", case, i, rec))
+            seeded_model(run, drv, pending, case, module, masked, conditional, rates, Or, fore, seed, nsim, rec)
+        else:
+            run.count("seed-only-model-skipped-other-draw-order")
         # aliasing: entry k of the distribution is the statistic of the k-th simulated catalog
         try:
             F = numpy.asarray(fore.spatial_counts() if PUBLIC[case["test"]][1] == "space" else fore.data, dtype=float)
@@ -824,6 +1422,68 @@ def default_path(run, drv, pending, case, mod, module, masked, conditional, rate
             run.count("default-path-statistic-function-not-found")
 
 
+RNG_MODEL = dict(ok=None)
+
+
+def rng_model_ok(run):
+    """the generator of Model/SamplerRng.lean (MT19937 seeded like numpy.random.seed(int), 53-bit doubles) against numpy's legacy
+    global generator, bit for bit, for the seed classes used here. Trusted-base validation: a disagreement is NOT a verdict — the
+    seed-only correspondence (`c06_seeded_*`) is then skipped and the recorded-stream correspondence decides as before."""
+    if RNG_MODEL["ok"] is None:
+        drv = Driver()
+        seeds = [0, 1, 2 ** 32 - 1, 12345, 2 ** 31, 1812433253]
+        ids = [drv.ask(f"c06_mt {s} 700") for s in seeds]
+        try:
+            out = drv.run()
+            ok = True
+            for s, i in zip(seeds, ids):
+                ref = numpy.random.RandomState(s).random_sample(700)
+                got = [Fraction(x) for x in out[i].split(",")]
+                ok = ok and len(got) == 700 and all(Fraction(float(a)) == b for a, b in zip(ref, got))
+        except Exception:
+            ok = False
+        RNG_MODEL["ok"] = ok
+        run.extra["rng_model_bitexact_with_numpy"] = ok
+        if not ok:
+            run.assumptions.append("Model/SamplerRng.lean does not reproduce this numpy's legacy generator: seed-only correspondence skipped")
+    return RNG_MODEL["ok"]
+
+
+def seeded_model(run, drv, pending, case, module, masked, conditional, rates, Or, fore, seed, nsim, rec):
+    """the seeded test as ONE model function of (rate array, observed array, seed): nothing but the seed is handed to the model,
+    which seeds its own MT19937, draws rand(n) / uniform(0,1) / (forecast mean < 10) the Poisson numbers, and simulates."""
+    if not rng_model_ok(run) or not (0 <= int(seed) < 2 ** 32):
+        return
+    impl = [r[3] if isinstance(r[3], str) else [int(v) for v in r[3]] for r in rec]
+    obstxt = ",".join(str(int(v)) for v in Or) if len(Or) else "-"
+    if not masked and conditional:
+        if int(sum(Or)) * nsim > 20000:
+            return
+        i = drv.ask(f"c06_seeded_p {flist(rates)} {obstxt} {nsim} {int(seed)}")
+        pending.append(("seeded-model", case, i, impl))
+        run.count("seed-only-model-poisson-conditional")
+    elif not masked:
+        lam = float(numpy.sum(fore.data))
+        if not (0.0 < lam < 10.0):
+            run.count("seed-only-model-l-test-skipped-mean>=10")
+            return
+        enlam = math.exp(-lam)
+        # the model's Poisson numbers must be numpy's (libm exp, multiplication method): validated without /repo
+        gg = numpy.random.RandomState(int(seed))
+        ref_n = []
+        for _ in range(nsim):
+            n = int(gg.poisson(lam))
+            ref_n.append(n)
+            gg.random_sample(n)
+        i = drv.ask(f"c06_seeded_l {flist(rates)} {frac(Fraction(enlam))} {nsim} {int(seed)}")
+        pending.append(("seeded-model-l", case, i, (impl, [r[0] for r in rec], ref_n)))
+        run.count("seed-only-model-l-test")
+    else:
+        i = drv.ask(f"c06_seeded_m {flist(rates)} {obstxt} {nsim} {int(seed)} 4000")
+        pending.append(("seeded-model-m", case, i, impl))
+        run.count("seed-only-model-binary")
+
+
 def do_seed(run, drv, pending, case):
     """determinism: the same seed from two different ambient generator states gives the same result"""
     keys = []
@@ -836,7 +1496,7 @@ def do_seed(run, drv, pending, case):
         numpy.random.rand(case.get("burn", 3))
         try:
             with capped_uniform():
-                res = getattr(mods[module], case["test"])(fore, cat, num_simulations=case["nsim"], seed=case["seed"])
+                res = getattr(mods[module], case["test"])(fore, cat, num_simulations=case["nsim"], seed=seed_arg(case))
             keys.append(result_key(res))
         except Exception as e:
             keys.append(("exc", type(e).__name__))
@@ -863,6 +1523,12 @@ def sensitive(case):
     if module != "poisson":
         return big >= 3 and 1 <= ev < big and case["nsim"] >= 2
     return big >= 3 and ev >= 2 and case["nsim"] >= 2
+
+
+def feasible_sibling(case):
+    """binary / Brier history on the sibling forecast only when its rejection loop is cheap: all rates positive and comparable"""
+    r = unhx(case["rates"])
+    return all(v > 0 for v in r) and max(r) / min(r) < 100
 
 
 def gen_public_case(rng, test=None, seeded=False):
@@ -930,8 +1596,19 @@ def gen_public_case(rng, test=None, seeded=False):
                 hist.append(["test", rng.choice(pool), rng.randrange(2 ** 31), rng.randint(1, 3)])
         if any(h[0] == "scale" for h in hist):
             hist.append(["scale", 1])          # back to the forecast's own rates (scale factors are absolute)
+        if rng.random() < 0.6:
+            # the SAME test on a sibling forecast (same grid / total / end rates, other interior) right before the checked call
+            hist.append(["sibling", test if module == "poisson" else rng.choice(pool + [test] if feasible_sibling(case) else pool),
+                         rng.randrange(2 ** 31), rng.randint(1, 2)])
+        if case.get("rows") is None and len(events) >= 2 and rng.random() < 0.5:
+            # the catalog loses events between the earlier calls and the checked one (seeded cases: no row widths to keep)
+            hist.insert(rng.randint(1, len(hist)), ["drop", rng.randint(1, len(events) - 1)])
         if not (not conditional and case.get("rows") is not None):
             case["history"] = hist
+    if case.get("seed") is not None:
+        case["seed_form"] = pick_seed_form(rng)
+    if case.get("rows") is not None:
+        case["rnlayout"] = rng.choice(["C", "C", "F", "strided"])
     return case
 
 
@@ -1041,7 +1718,7 @@ def do_catalog_seed(run, drv, pending, case):
         numpy.random.seed(ambient)
         numpy.random.rand(3)
         try:
-            res = fn(fore, obs, seed=case["seed"])
+            res = fn(fore, obs, seed=seed_arg(case))
             keys.append((tuple(bits(v) for v in res.test_distribution), bits(res.observed_statistic),
                          tuple(bits(v) for v in res.quantile)))
         except Exception as e:
@@ -1071,7 +1748,7 @@ def gen_catalog_seed_case(rng, seed):
     cats = [[rng.choice([1.5, 2.5, 3.5]) for _ in range(rng.randint(1, 6))] for _ in range(ncat)]
     obs = [rng.choice([1.5, 2.5, 3.5]) for _ in range(rng.randint(2, 6))]
     return dict(kind="catseed", test=rng.choice(["resampled_magnitude_test", "MLL_magnitude_test"]), cats=cats, obs=obs,
-                seed=seed, ambient_a=rng.randrange(2 ** 31), ambient_b=rng.randrange(2 ** 31))
+                seed=seed, seed_form=pick_seed_form(rng), ambient_a=rng.randrange(2 ** 31), ambient_b=rng.randrange(2 ** 31))
 
 
 # ----------------------------------------------------------------------------- direct _simulate_catalog calls
@@ -1088,6 +1765,11 @@ def do_direct(run, drv, pending, case):
     run.case(case, ("direct", module, tuple(case["rates"]), tuple(case["draws"])))
     run.count(f"direct-{module}")
     sim = numpy.full(w.shape, 7.0)  # stale content must be cleared
+    direct = getattr(mod, "_simulate_catalog", None)
+    if direct is None or not callable(direct) or not _sig_ok(direct, mod):
+        HELPER_MISSING.add(module + "_evaluations._simulate_catalog")
+        run.count(f"helper-missing:{module}._simulate_catalog")
+        return
     try:
         if module == "brier":
             out = mod._simulate_catalog(n, w, random_numbers=numpy.array(draws))
@@ -1101,6 +1783,13 @@ def do_direct(run, drv, pending, case):
         run.oracle_failure(case, fail)
     i = drv.ask(f"c06_run {'m' if masked else 'p'} {flist(rates)} {flist(draws)}")
     pending.append(("run", case, i, call))
+    ask_on_impl_weights(drv, pending, case, call)
+    # the binary search numpy runs (Model/SamplerSearch.lean) against numpy.searchsorted itself: on the weights, and on the
+    # unsorted array of the rates (where different binary searches give different answers). Report about the trusted base only.
+    if draws:
+        for arr in (w, numpy.array(rates, dtype=float)):
+            i = drv.ask(f"c06_bsearch {flist(arr)} {flist(draws)}")
+            pending.append(("bsearch", case, i, numpy.searchsorted(arr, numpy.array(draws), side="right").tolist()))
 
 
 def gen_direct_case(rng):
@@ -1167,13 +1856,19 @@ def do_big(run, drv, pending, case):
         kw.update(use_observed_counts=True, normalize_likelihood=False)
     run.case(dict(kind="big", which=case["which"], module=module, n=n, events=ev), ("big", case["which"], module, n, ev, case["draw_seed"]))
     run.count(f"big-{case['which']}-{module}")
+    if private_fn(mod, fn, ["forecast_data", "observed_data", "num_simulations", "random_numbers", "seed", "verbose"]) is None:
+        run.count(f"helper-missing:{module}.{fn}")
+        return
     with capture(mod) as rec:
         try:
             res = getattr(mod, fn)(rates.reshape(shape), obs.reshape(shape), **kw)
         except Exception as e:
             run.oracle_failure(case, f"{fn} raised {type(e).__name__} on {n} bins / {ev} events")
             return
-    if len(rec) != nsim:
+    hook_check(run, rec, n, module)
+    if rec.missing:
+        run.count(f"helper-missing:{module}._simulate_catalog")
+    elif len(rec) != nsim:
         run.oracle_failure(case, f"{len(rec)} catalogs simulated for {nsim} simulations")
         return
     for q, (cn, w, rn, out) in enumerate(rec):
@@ -1227,7 +1922,7 @@ def guarded(fn):
     return wrapped
 
 
-DISPATCH = dict(array=guarded(do_array), public=guarded(do_public_any), seed=guarded(do_seed),
+DISPATCH = dict(session=guarded(do_session), array=guarded(do_array), public=guarded(do_public_any), seed=guarded(do_seed),
                 catseed=guarded(do_catalog_seed), direct=guarded(do_direct), big=guarded(do_big))
 
 
@@ -1253,6 +1948,9 @@ def run(run, rng, tier):
         DISPATCH["array"](run, drv, pending, gen_array_case(rng, tier))
         if k % 200 == 199:
             flush_all(run, drv, pending)
+    flush_all(run, drv, pending)
+    for k in range(60 if quick else 1500):
+        DISPATCH["session"](run, drv, pending, gen_session_case(rng, tier))
     flush_all(run, drv, pending)
     for k in range(n_direct):
         DISPATCH["direct"](run, drv, pending, gen_direct_case(rng))
@@ -1287,7 +1985,8 @@ def run(run, rng, tier):
                     case = gen_public_case(rng, test=test, seeded=True)
                     if case and (case.get("rows") is not None or not sensitive(case)):
                         case = None
-                case = dict(case, kind="seed", seed=seed, ambient_a=rng.randrange(2 ** 31), ambient_b=rng.randrange(2 ** 31),
+                case = dict(case, kind="seed", seed=seed, seed_form=pick_seed_form(rng), ambient_a=rng.randrange(2 ** 31),
+                            ambient_b=rng.randrange(2 ** 31),
                             burn=rng.randint(0, 5))
                 DISPATCH["seed"](run, drv, pending, case)
     for seed in [0, 1, 2 ** 32 - 1] + [rng.randrange(2 ** 32) for _ in range(1 if quick else 4)]:
@@ -1309,6 +2008,11 @@ def run(run, rng, tier):
             ks.append(result_key(mods["poisson"].conditional_likelihood_test(fore, cat, num_simulations=5, seed=None)))
         sens += ks[0] != ks[1]
     run.extra["unseeded_runs_differing_of_5"] = sens
+    if HELPER_MISSING:
+        run.extra["helpers_missing"] = sorted(HELPER_MISSING)
+        run.assumptions.append("private helpers not found (or re-shaped) on the tree under test: " + ", ".join(sorted(HELPER_MISSING)) +
+                               " - their direct cases were skipped; the public tests (statistics of the model's catalogs for the "
+                               "injected / drawn numbers, quantile, determinism) decided")
     run.assumptions.append("bit-exactness of the sampling weights with Soft64 is reported (weights_not_bitexact); the "
                            "verdict rests on placements / counts / quantile / determinism")
 
